@@ -114,11 +114,11 @@ def render(n, rng, redundant=0.0):
     return t
 
 
-def python_precedence_value(n):
+def python_precedence_value(n, text=None):
     """Value Python/C++ would compute from the *minimal* rendering of n re-parsed with their precedence
     (shifts bind looser than + - * /). Used only to attribute the isar known finding."""
     import random
-    txt = render(n, random.Random(0), 0.0)
+    txt = text if text is not None else render(n, random.Random(0), 0.0)
     env = {}
 
     def collect(x):
@@ -189,7 +189,7 @@ def max_intermediate(n):
     return max(abs(evaluate(n)), max_intermediate(n.a), max_intermediate(n.b))
 
 
-def host_value_32bit(n):
+def host_value_32bit(n, text=None):
     """Value a host language with C-like precedence and 32-bit int arithmetic computes from the minimal rendering,
     or None when that evaluation leaves the range where C++ constant expressions are defined (shift count >= 31,
     intermediate >= 2**31, negative operand of a shift)."""
@@ -207,7 +207,9 @@ def host_value_32bit(n):
             collect(x.a)
             collect(x.b)
     collect(n)
-    txt = render(n, random.Random(0), 0.0)
+    # text: the rendering actually written into the schema (redundant parentheses are not redundant for a host
+    # language with another precedence); default: the minimal rendering
+    txt = text if text is not None else render(n, random.Random(0), 0.0)
     txt = re.sub(r'\b0([0-7]+)\b', r'0o\1', txt).replace('/', '//')
 
     def ev(a):
